@@ -5,6 +5,7 @@ go 1.26.8
 require (
 	github.com/DrmagicE/gmqtt v0.0.0
 	github.com/gomodule/redigo v1.8.2
+	google.golang.org/grpc v1.79.3
 	pgregory.net/rapid v1.3.0
 )
 
@@ -30,7 +31,6 @@ require (
 	golang.org/x/sys v0.42.0 // indirect
 	golang.org/x/text v0.35.0 // indirect
 	google.golang.org/genproto v0.0.0-20230410155749-daa745c078e1 // indirect
-	google.golang.org/grpc v1.79.3 // indirect
 	google.golang.org/protobuf v1.36.11 // indirect
 	gopkg.in/yaml.v2 v2.4.0 // indirect
 )
